@@ -18,7 +18,7 @@ import z3
 
 from . import core, loader
 from .core import Explorer, PathAbort, SymBool, SymInt, Unsupported
-from .rope import SymBytes, SymStr
+from .rope import IntSeg, SymBytes, SymStr
 
 VERIF = os.path.dirname(os.path.dirname(os.path.abspath(__file__)))
 NPROC = int(os.environ.get("VERIF_NPROC", "0")) or min(16, os.cpu_count() or 1)
@@ -114,6 +114,10 @@ def sym_observe(ex, v):
         if isinstance(x, SymBytes):
             out = bytearray()
             for s in x.segs:
+                if isinstance(s, IntSeg) and s._arr is None:
+                    iv = s.v if isinstance(s.v, int) else m.eval(s.v.t, model_completion=True).as_long()
+                    out += (iv % (1 << (8 * s.width))).to_bytes(s.width, s.order)
+                    continue
                 n = s.n if isinstance(s.n, int) else m.eval(s.n.t, model_completion=True).as_long()
                 off = s.off if isinstance(s.off, int) else m.eval(s.off.t, model_completion=True).as_long()
                 if s.conc is not None:
